@@ -17,7 +17,7 @@ Line protocol for C10.
   tm  <tunnel id hex> <node id hex>     Encode/DecodeTargetReadyMessage;  obs: ok <tidhex> <nodehex> | invalid
   ls  tid <hex> node <hex> br <hex> ty <n> hid <hex> pay <len> <seed> back <len> <seed> co <0|1|2>
       obs:  fwd <0|1> up <hex> down <hex>          (the real CrossNodeListener.handleConnection)
-  fw  me <hex> up <len> <seed> down <len> <seed> cs <k> <size>*k [opt <ct> <cl> <ord>]
+  fw  me <hex> up <len> <seed> down <len> <seed> cs <k> <size>*k [opt <ct> <cl> <ord> [<le> <re>]]
       obs:  up <hex> down <hex> done <0|1> cnt <sent|na> <recv|na> closes <n|na>
 
 Payloads are `(len, seed)` pairs expanded by `genBytes` (same function in the Go harness).
@@ -322,6 +322,8 @@ structure FwCase where
   cs : List Nat
   ct : Bool    -- config has traffic counters
   cl : Bool    -- config has a LocalConnCloser
+  le : Nat := 0   -- local reader: 0 plain, 1 last bytes with io.EOF, 2 last bytes with another error
+  re : Bool := false  -- stream side reports end-of-stream with its last bytes
 
 def parseFw : List String → Option FwCase
   | "me" :: me :: "up" :: ul :: us :: "down" :: dl :: ds :: ts => do
@@ -333,9 +335,21 @@ def parseFw : List String → Option FwCase
     let (cs, ts) ← parseSizes "cs" ts
     -- optional: opt <ct> <cl> <ord>   (ord = which direction finishes first: harness timing only)
     match ts with
-    | "opt" :: ct :: cl :: _ => pure ⟨me, genBytes ul us, genBytes dl ds, cs, ct == "1", cl == "1"⟩
-    | _ => pure ⟨me, genBytes ul us, genBytes dl ds, cs, false, false⟩
+    | "opt" :: ct :: cl :: _ :: le :: re :: _ => do
+      let le ← le.toNat?
+      pure ⟨me, genBytes ul us, genBytes dl ds, cs, ct == "1", cl == "1", le, re == "1"⟩
+    | "opt" :: ct :: cl :: _ => pure ⟨me, genBytes ul us, genBytes dl ds, cs, ct == "1", cl == "1", 0, false⟩
+    | _ => pure ⟨me, genBytes ul us, genBytes dl ds, cs, false, false, 0, false⟩
   | _ => none
+
+/-- The local reader's script: the upload in the case's pieces; with `le` ≠ 0 the last piece carries the
+end (io.EOF) or an error. -/
+def fwReads (c : FwCase) : List LRead :=
+  let ps := chunkBy c.cs c.up
+  let e : Option Tail := if c.le == 1 then some .eof else if c.le == 2 then some .err else none
+  match ps.reverse with
+  | [] => [⟨[], e⟩]
+  | l :: r => (r.reverse.map (fun d => ⟨d, none⟩)) ++ [⟨l, e⟩]
 
 def fwObsStr (o : FwObs) : String :=
   let cnt := match o.cnt with | some (a, b) => s!"{a} {b}" | none => "na na"
@@ -412,7 +426,7 @@ def runModel (ts : List String) : String :=
     | none => "bad-case"
   | "fw" :: rest =>
     match parseFw rest with
-    | some c => fwObsStr (runForward c.me (chunkBy c.cs c.up) c.down c.ct c.cl)
+    | some c => fwObsStr (runForwardR c.me (fwReads c) c.down c.ct c.cl c.re)
     | none => "bad-case"
   | "st" :: rest =>
     match parseSt rest with
@@ -472,7 +486,7 @@ def runHolds (caseToks obsToks : List String) : String :=
     | none, _ => "bad-case"
   | "fw" :: rest =>
     match parseFw rest, parseFwObs obsToks with
-    | some c, some o => boolStr (holdsFw c.up c.down c.ct c.cl o)
+    | some c, some o => boolStr (holdsFw (readData (fwReads c)) c.down c.ct c.cl o)
     | some _, none => "false"
     | none, _ => "bad-case"
   | "st" :: rest =>
